@@ -200,9 +200,11 @@ public:
     Emitter(Shared *sh, long start, const std::map<long, std::string> &skip, ExecFn exec)
         : sh_(sh), start_(start), skip_(skip), exec_(exec) {}
     // one case; `input` must not contain "=>"
+    void stop_after(long n) { stop_after_ = n; }
     void emit(const std::string &input) {
         ++index_;
         if (index_ < start_) return;
+        if (stop_after_ >= 0 && index_ > stop_after_) return;
         auto it = skip_.find(index_);
         if (it != skip_.end()) { out(input, it->second); return; }
         sh_->current = index_;
@@ -233,7 +235,7 @@ private:
         buf_.clear(); sh_->flushed = index_; pending_ = 0; sh_->flushing = 0;
     }
     Shared *sh_; long start_; const std::map<long, std::string> &skip_; ExecFn exec_;
-    long index_ = 0; int pending_ = 0; std::string buf_;
+    long index_ = 0; int pending_ = 0; std::string buf_; long stop_after_ = -1;
 };
 
 typedef std::function<void(Emitter &, const Options &)> GenFn;
@@ -318,7 +320,7 @@ inline int run_main(int argc, char **argv, GenFn gen, Emitter::ExecFn exec) {
     memset((void *)sh, 0, sizeof *sh);
     char errpath[64]; snprintf(errpath, sizeof errpath, "/tmp/vh_err_%d.txt", (int)getpid());
     std::map<long, std::string> skip;
-    long start = 1; int restarts = 0; long total_faults = 0;
+    long start = 1; int restarts = 0; long total_faults = 0; long stop_after = -1;
     for (;;) {
         sh->current = 0; sh->done = 0; sh->flushing = 0;
         fflush(stdout);
@@ -327,6 +329,7 @@ inline int run_main(int argc, char **argv, GenFn gen, Emitter::ExecFn exec) {
             int fd = open(errpath, O_WRONLY | O_CREAT | O_TRUNC, 0600);
             if (fd >= 0) { dup2(fd, 2); close(fd); }
             Emitter em(sh, start, skip, exec);
+            em.stop_after(stop_after);
             if (!opt.replay.empty()) gen_from_file(em, opt.replay); else gen(em, opt);
             em.finish();
             sh->alloc_faults_fired = alloc_ctl().fired;
@@ -345,15 +348,20 @@ inline int run_main(int argc, char **argv, GenFn gen, Emitter::ExecFn exec) {
         }
         if (!hung && sh->done) { total_faults += sh->alloc_faults_fired; break; }
         long bad = sh->current;
-        if (bad <= 0 || ++restarts > 400) {
-            fprintf(stderr, "harness: worker died outside a case or too many restarts (%d); status=%d\n", restarts, status);
+        if (bad <= 0) {
+            fprintf(stderr, "harness: worker died outside a case (restarts=%d); status=%d\n", restarts, status);
             unlink(errpath); return 2;
         }
         skip[bad] = hung ? std::string("hang") : ("abort " + classify_stderr(errpath, status));
         start = sh->flushed + 1;
+        if (++restarts >= 40) {
+            // every one of these cases is already reported as "abort …" / "hang" (a violation each); running the rest
+            // of the slice would only repeat them.  One last worker flushes the pending lines up to the last abort.
+            stop_after = bad;
+        }
     }
     unlink(errpath);
-    fprintf(stderr, "harness: restarts=%d alloc_faults_fired=%ld\n", restarts, total_faults);
+    fprintf(stderr, "harness: restarts=%d alloc_faults_fired=%ld%s\n", restarts, total_faults, stop_after >= 0 ? " truncated_after_too_many_aborts=1" : "");
     return 0;
 }
 
